@@ -929,15 +929,20 @@ struct TStream(Arc<Mutex<SS>>);
 impl futures_core::Stream for TStream {
     type Item = u64;
     fn poll_next(self: std::pin::Pin<&mut Self>, cx: &mut std::task::Context<'_>) -> std::task::Poll<Option<u64>> {
-        let mut s = self.0.lock().unwrap();
-        log(Ev::Poll { task: 1000, th: me() });
-        if let Some(v) = s.queue.pop_front() {
-            return std::task::Poll::Ready(Some(v));
+        {
+            let mut s = self.0.lock().unwrap();
+            log(Ev::Poll { task: 1000, th: me() });
+            if let Some(v) = s.queue.pop_front() {
+                return std::task::Poll::Ready(Some(v));
+            }
+            if s.ended {
+                return std::task::Poll::Ready(None);
+            }
+            s.waker = Some(cx.waker().clone());
         }
-        if s.ended {
-            return std::task::Poll::Ready(None);
-        }
-        s.waker = Some(cx.waker().clone());
+        // the waker is registered and the queue was empty: a producer may get in before this
+        // poll has returned to the source (a stream's poll_next is arbitrary code)
+        sp();
         std::task::Poll::Pending
     }
 }
